@@ -13,8 +13,26 @@ from asyncio import events
 warnings.simplefilter("ignore")
 sys.unraisablehook = lambda *a, **k: None
 _tp_log = logging.getLogger("asyncio_taskpool")
-_tp_log.addHandler(logging.NullHandler())
-_tp_log.setLevel(1000)
+import os as _os
+
+
+class _Sink(logging.Handler):
+    """Takes every record of the library's loggers (so that logging calls are really executed and formatted, as
+    they would be in an application with logging configured) and drops the text."""
+
+    def emit(self, record):
+        try:
+            record.getMessage()
+        except Exception:  # noqa: BLE001
+            self.handleError(record)
+
+    def handleError(self, record):
+        BROKEN_LOG_CALLS.append(record.msg)
+
+
+BROKEN_LOG_CALLS = []
+_tp_log.addHandler(_Sink())
+_tp_log.setLevel(1 if _os.environ.get("VERIF_LIB_LOGGING", "1") == "1" else 1000)
 _tp_log.propagate = False
 logging.getLogger("asyncio").setLevel(1000)
 
@@ -78,10 +96,60 @@ class VLoop(asyncio.BaseEventLoop):
         return k
 
 
+_LIB_STATE = None
+
+
+def _snapshot_library_state():
+    """Process-global mutable state of the library (module globals and class attributes that are containers):
+    recorded once, restored before every execution, so that no execution can influence another one through it."""
+    import importlib
+    import pkgutil
+
+    import asyncio_taskpool
+
+    snap = []
+    mods = [asyncio_taskpool]
+    for info in pkgutil.walk_packages(asyncio_taskpool.__path__, "asyncio_taskpool."):
+        try:
+            mods.append(importlib.import_module(info.name))
+        except Exception:  # noqa: BLE001
+            continue
+    seen = set()
+    for mod in mods:
+        holders = [mod] + [v for v in vars(mod).values() if isinstance(v, type) and getattr(v, "__module__", "").startswith("asyncio_taskpool")]
+        for h in holders:
+            for name, val in list(vars(h).items()):
+                if name.startswith("__") or id(val) in seen:
+                    continue
+                if type(val) in (dict, list, set):
+                    seen.add(id(val))
+                    snap.append((h, name, val, type(val)(val)))
+    return snap
+
+
+def _restore_library_state():
+    global _LIB_STATE
+    if _LIB_STATE is None:
+        _LIB_STATE = _snapshot_library_state()
+    known = {(id(h), n) for h, n, _, _ in _LIB_STATE}
+    for h, name, obj, initial in _LIB_STATE:
+        if type(obj) is list:
+            obj[:] = initial
+        else:
+            obj.clear()
+            obj.update(initial)
+    # containers that appeared later (e.g. a cache added to a module or class at run time)
+    for h in {h for h, _, _, _ in _LIB_STATE}:
+        for name, val in list(vars(h).items()):
+            if not name.startswith("__") and type(val) in (dict, list, set) and (id(h), name) not in known:
+                val.clear()
+
+
 def fresh_loop():
     """New virtual loop installed as the running loop; process-global library state reset."""
     from asyncio_taskpool import pool as poolmod
 
+    _restore_library_state()
     poolmod.BaseTaskPool._pools.clear()
     loop = VLoop()
     events._set_running_loop(loop)
@@ -93,6 +161,27 @@ def fresh_loop():
 
 
 def release_loop(loop):
+    events._set_running_loop(None)
+
+
+def teardown_loop(loop):
+    """Finish every task of an execution before its world is abandoned: coroutines that are merely dropped would be
+    finalised by the garbage collector during a LATER execution, where library code running in their `finally`
+    blocks could touch the then-current loop (observed with a seeded change that shields callbacks)."""
+    try:
+        for _ in range(12):
+            live = loop.live_tasks()
+            if not live:
+                break
+            for t in live:
+                t.cancel()
+            loop.run_idle(maxit=500)
+    except Exception:  # noqa: BLE001
+        pass
+    try:
+        loop._ready.clear()
+    except Exception:  # noqa: BLE001
+        pass
     events._set_running_loop(None)
 
 
